@@ -346,6 +346,39 @@ def seeded_variants(root: pathlib.Path, prop: str):
     return out
 
 
+def refactoring_variants(root: pathlib.Path):
+    """overlays produced by the confirmed behaviour-preserving refactorings under /verif/neutral (every check must stay
+    silent on every one of them, whatever property the refactoring was written for)"""
+    out = []
+    nd = VERIF / "neutral"
+    if not nd.is_dir():
+        return out
+    for d in sorted(nd.iterdir()):
+        pf = d / "patch.diff"
+        if not pf.exists():
+            continue
+        files = [ln[6:].strip() for ln in pf.read_text().splitlines() if ln.startswith("+++ b/")]
+        tmp = pathlib.Path(tempfile.mkdtemp(prefix="variant_"))
+        try:
+            ok = True
+            for rel in files:
+                if not (root / rel).exists():
+                    ok = False
+                    break
+                (tmp / rel).parent.mkdir(parents=True, exist_ok=True)
+                shutil.copy(root / rel, tmp / rel)
+            if not ok:
+                continue
+            r = subprocess.run(["patch", "-p1", "-s", "-i", str(pf)], cwd=tmp, capture_output=True, text=True)
+            if r.returncode != 0:
+                continue  # the repository moved on: the refactoring no longer applies
+            overlay = {p.relative_to(tmp).as_posix(): p.read_text() for p in tmp.rglob("*.py")}
+            out.append((f"refactoring:{d.name}", overlay))
+        finally:
+            shutil.rmtree(tmp, ignore_errors=True)
+    return out
+
+
 # ----------------------------------------------------------------------------------------------- synthetic single-site edits
 # (property, name, expected, file, old text, new text).  Applied to the current file contents when `old` occurs exactly once
 # (otherwise skipped: the repository moved on and the variant no longer means what it says).  They keep rules whose expected
@@ -414,9 +447,11 @@ def run(prop: str, seed: int) -> dict:
     synth = synthetic_variants(root, prop)
     neutral += [(n, ov) for n, k, ov in synth if k == "neutral"]
     breaking += [(n, ov) for n, k, ov in synth if k == "breaking"]
+    refactorings = refactoring_variants(root)
     rnd = random.Random(seed)
     rnd.shuffle(neutral)
-    jobs = [(prop, str(root), n, ov) for n, ov in neutral] + [(prop, str(root), n, ov) for n, ov in breaking]
+    jobs = [(prop, str(root), n, ov) for n, ov in neutral] + [(prop, str(root), n, ov) for n, ov in breaking] + \
+        [(prop, str(root), n, ov) for n, ov in refactorings]
     with ProcessPoolExecutor(max_workers=min(16, os.cpu_count() or 4)) as ex:
         results = dict(ex.map(_work, jobs))
     matrix, mismatches = [], []
@@ -429,11 +464,30 @@ def run(prop: str, seed: int) -> dict:
         if not same:
             extra = sorted(set(map(tuple, r[-1])) - base_keys)[:3] if r[0] in ("OK", "UNCLASSIFIED") and isinstance(r[-1], list) else r[1]
             mismatches.append({"variant": n, "expected": "silent (neutral rewrite)", "observed": f"{r[0]}: {extra}"})
+    # confirmed refactorings: no finding that the known-findings file does not list, and no lost anchor
+    from sa import report as _report
+    known = _report.load_known()
+
+    class _F:
+        def __init__(self, rule, key):
+            self.rule, self.key = rule, key
+
+    for n, _ in refactorings:
+        r = results[n]
+        new_f = []
+        if r[0] == "OK":
+            new_f = [k for k in r[1] if tuple(k) not in base_keys and _report.match_known(prop, _F(k[0], list(k[1:])), known) is None]
+        okv = r[0] == "OK" and not new_f
+        matrix.append({"variant": n, "kind": "refactoring", "expected": "no new finding", "observed": r[0], "ok": okv})
+        if not okv:
+            mismatches.append({"variant": n, "expected": "silent (confirmed behaviour-preserving refactoring)",
+                               "observed": f"{r[0]}: {new_f[:2] if new_f else r[1]}"})
     for n, _ in breaking:
         r = results[n]
         new = r[0] in ("OK", "UNCLASSIFIED") and bool(set(map(tuple, r[-1])) - base_keys)
         matrix.append({"variant": n, "kind": "breaking", "expected": "new violation", "observed": r[0], "ok": new})
         if not new:
             mismatches.append({"variant": n, "expected": "new violation (seeded breakage)", "observed": f"{r[0]}: no new finding"})
-    return {"variants": len(jobs), "neutral": len(neutral), "breaking": len(breaking), "mismatches": mismatches, "matrix": matrix,
+    return {"variants": len(jobs), "neutral": len(neutral), "breaking": len(breaking), "refactorings": len(refactorings),
+            "mismatches": mismatches, "matrix": matrix,
             "baseline": base[0]}
